@@ -487,8 +487,10 @@ func (it *Interp) allocSize(n Int, signed bool, site string) int {
 	if signed {
 		it.oblige(it.fromBTerm(it.ctx.Cmp("bvsge", n.T, it.ctx.BV(w, 0))), "alloc-nonneg", "alloc", "negative make size: "+site)
 	}
-	it.oblige(it.fromBTerm(it.ctx.Cmp("bvule", n.T, it.ctx.BV(w, uint64(it.allocBudg)))), "alloc-budget", "alloc",
-		fmt.Sprintf("allocation size governed by unchecked input can exceed %d elements (%s)", it.allocBudg, site))
+	if w >= 64 || uint64(it.allocBudg) < uint64(1)<<uint(w) {
+		it.oblige(it.fromBTerm(it.ctx.Cmp("bvule", n.T, it.ctx.BV(w, uint64(it.allocBudg)))), "alloc-budget", "alloc",
+			fmt.Sprintf("allocation size governed by unchecked input can exceed %d elements (%s)", it.allocBudg, site))
+	}
 	return int(it.concretize(n, 40, "allocation size ("+site+")"))
 }
 
@@ -643,6 +645,21 @@ func (it *Interp) sliceOp(fr *frameState, x *ssa.Slice) Val {
 		}
 		at := derefType(x.X.Type()).Underlying().(*types.Array)
 		obj, off, ln, cp, es = b.Obj, b.Off, int(at.Len()), int(at.Len()), it.slotCount(at.Elem())
+		if eb, ok := at.Elem().Underlying().(*types.Basic); ok && eb.Kind() == types.Uint8 && ln > 1 && off < len(obj.Slots) {
+			// (*[N]byte)(unsafe.Pointer(&x))[:] over a scalar slot: materialise the little-endian bytes (read-only view)
+			if iv, ok := obj.Slots[off].(Int); ok && int(iv.W) == 8*ln {
+				vals := make([]Val, ln)
+				for k := 0; k < ln; k++ {
+					if iv.T == nil {
+						vals[k] = CInt(8, iv.C>>(8*uint(k)))
+					} else {
+						vals[k] = it.fromTerm(it.ctx.Extract(8*k+7, 8*k, iv.T))
+					}
+				}
+				nb := it.bytesToSlice(vals, "unsafe byte view")
+				obj, off = nb.Obj, 0
+			}
+		}
 	default:
 		it.engineBug("Slice on " + describe(base))
 	}
